@@ -85,7 +85,7 @@ def _run_unit(args):
 
 
 def _unit_limit():
-    return UNIT_TIMEOUT_S or (300 if os.environ.get("VERIF_TIER", "quick") != "thorough" and "--tier thorough" not in " ".join(sys.argv) else 3600)
+    return UNIT_TIMEOUT_S or (420 if os.environ.get("VERIF_TIER", "quick") != "thorough" and "--tier thorough" not in " ".join(sys.argv) else 3600)
 
 
 def _child(conn, job):
